@@ -88,6 +88,10 @@ structure Cfg where
   delCut : Nat
   /-- the `'/'` of `path.startswith('/')` -/
   absPrefix : Bytes
+  /-- the test that decides whether a descriptor is listed is exactly
+      `path.startswith(absPrefix) and isfile_strict(path)` — no further clause about the path (its
+      name, a directory prefix such as `/dev/`, …); `scanOne` transcribes exactly these two conjuncts -/
+  filterExact : Bool
   /-- does the `except` around `readlink(file)` that sets `hit_enoent` catch ENOENT / ESRCH? -/
   linkGoneEnoent : Bool
   linkGoneEsrch : Bool
